@@ -55,7 +55,48 @@ func crashTargets() []codec.Node {
 		codec.Void(), codec.Null(), n(8), codec.Str("s0"), codec.Arr(), codec.Arr(n(8)), codec.Arr(n(8), n(16), n(24)),
 		obj(), obj("k0", n(8)), obj("k0", codec.Arr(n(8), n(16))), codec.Arr(codec.Arr(n(8)), codec.Arr(n(16))),
 		codec.Arr(obj("id", n(8), "v", n(8))), obj("k0", obj("k1", n(8))), codec.Arr(obj("k0", n(8)), n(8)),
+		// the 8-byte string whose bytes are the float64 of the number 1000001 stands for (they hash alike), where the
+		// other targets have the number 1: hunks that mention that number meet its look-alike
+		codec.Arr(codec.Str("sA")), codec.Arr(codec.Str("sA"), n(16), n(24)), obj("k0", codec.Arr(codec.Str("sA"), n(16))),
+		codec.Arr(obj("id", codec.Str("sA"), "v", n(8))), codec.Arr(n(1000001), codec.Str("sA")), obj("k0", codec.Str("sA")),
 	}
+}
+
+// aliasTwist replaces the number 1 by the number whose hash is that of the string "AAAAAAAA" in every value of a hunk.
+func aliasTwist(h codec.Hunk) codec.Hunk {
+	var tw func(n codec.Node) codec.Node
+	tw = func(n codec.Node) codec.Node {
+		switch n.K {
+		case "n":
+			if i, ok := n.V.(int); ok && i == 8 {
+				return codec.Num(1000001)
+			}
+		case "A":
+			l := n.V.([]codec.Node)
+			out := make([]codec.Node, len(l))
+			for i, e := range l {
+				out[i] = tw(e)
+			}
+			return codec.Node{K: "A", V: out}
+		case "O":
+			m := n.V.(map[string]codec.Node)
+			out := map[string]codec.Node{}
+			for k, e := range m {
+				out[k] = tw(e)
+			}
+			return codec.Node{K: "O", V: out}
+		}
+		return n
+	}
+	seq := func(l []codec.Node) []codec.Node {
+		out := make([]codec.Node, len(l))
+		for i, e := range l {
+			out[i] = tw(e)
+		}
+		return out
+	}
+	h.Before, h.Remove, h.Add, h.After = seq(h.Before), seq(h.Remove), seq(h.Add), seq(h.After)
+	return h
 }
 
 func lineText(t *codec.Table, ln codec.Line) string {
@@ -176,6 +217,9 @@ func driveCR(p *Plan, shard int, w *Writer, t *codec.Table) {
 			continue
 		}
 		h := wild[hi]
+		if hi%5 == 0 {
+			h = aliasTwist(h)
+		}
 		w.Sess[shard]++
 		w.Emit(shard, Rec{"sess": id, "op": "Wild", "h": h})
 		applyAll(id, func() (jd.Diff, bool) {
